@@ -61,7 +61,9 @@ export function genSplitProject(rng, p) {
     place.set(d[1], f);
     const F = files.get(f);
     let ln = d[1];
-    if (rng.chance(1, 3)) ln = rng.pick(["Same", "Item", ...decls.map((x) => x[1])]);
+    // (never the name of a type parameter: `type T<T> = … T<T>` is not TypeScript — inside, T is the parameter)
+    const paramNames = new Set(decls.flatMap((x) => x[2]));
+    if (rng.chance(1, 3)) ln = rng.pick(["Same", "Item", ...decls.map((x) => x[1]).filter((n) => !paramNames.has(n))]);
     if (F.locals.has(ln)) ln = d[1];
     while (F.locals.has(ln)) ln = d[1] + "_u" + F.n++;
     F.locals.add(ln); local.set(d[1], ln);
